@@ -1,4 +1,6 @@
 import sys
-from vf.core import main
 
-sys.exit(main())
+if __name__ == "__main__":
+    from vf.core import main
+
+    sys.exit(main())
